@@ -1013,18 +1013,26 @@ func init() {
 		"validloc": func(x *Exec, env *CEnv, e CCall, want string) Term {
 			x.reflectSort()
 			x.d.instantiate("Layout", map[string]string{})
+			if len(e.Args) != 4 {
+				x.cfail(env, "validloc(t, off, name, a) takes four arguments")
+			}
 			t := x.ceval(env, e.Args[0], "RType")
 			o := x.ceval(env, e.Args[1], "Int")
-			a := x.ceval(env, e.Args[2], "RType")
-			return tApp("Bool", "validloc", t, o, a)
+			nm := x.ceval(env, e.Args[2], x.strSort())
+			a := x.ceval(env, e.Args[3], "RType")
+			return tApp("Bool", "validloc", t, o, nm, a)
 		},
 		"validfield": func(x *Exec, env *CEnv, e CCall, want string) Term {
 			x.reflectSort()
 			x.d.instantiate("Layout", map[string]string{})
+			if len(e.Args) != 4 {
+				x.cfail(env, "validfield(fs, off, name, a) takes four arguments")
+			}
 			fs := x.ceval(env, e.Args[0], lsfSort)
 			o := x.ceval(env, e.Args[1], "Int")
-			a := x.ceval(env, e.Args[2], "RType")
-			return tApp("Bool", "validfield", fs, o, a)
+			nm := x.ceval(env, e.Args[2], x.strSort())
+			a := x.ceval(env, e.Args[3], "RType")
+			return tApp("Bool", "validfield", fs, o, nm, a)
 		},
 		"fget": func(x *Exec, env *CEnv, e CCall, want string) Term {
 			s := x.ceval(env, e.Args[0], "")
